@@ -480,7 +480,7 @@ func r03_4(c *Ctx, rule string) {
 		return
 	}
 	c.R.Check(isFieldLoad(look.Index, "types.Stat.Linkname"), rule, base+"/link-source-key", c.pos(look), "looked up by the entry's link name", "the lookup key is not the entry's Linkname")
-	hit, und := c.SuccessAvoiding(fn, look, map[string]bool{look.Name() + "#1": false}, nil, nil)
+	hit, und := c.SuccessAvoiding(fn, look, map[string]bool{c.reg(look) + "#1": false}, nil, nil)
 	c.R.Check(!und && hit == nil, rule, base+"/unknown-source-fatal", c.pos(look), "a miss reaches no success return", "a hard link whose source was never received can reach a success return")
 	// the lookup cannot be bypassed for a link entry
 	as := map[string]bool{}
@@ -527,7 +527,7 @@ func r03_4(c *Ctx, rule string) {
 			}
 		case *ssa.TypeAssert:
 			if v.CommaOk {
-				as[v.Name()+"#1"] = true
+				as[c.reg(v)+"#1"] = true
 			}
 		}
 	})
@@ -566,7 +566,7 @@ func r03_5(c *Ctx, rule string) {
 		return
 	}
 	c.R.Check(isFieldLoad(look.Index, "types.Packet.ID"), rule, base+"/pipe-lookup-key", c.pos(look), "looked up by the packet's ID", "the pipe is not looked up by the packet's ID")
-	okKey := look.Name() + "#1"
+	okKey := c.reg(look) + "#1"
 	isRecv := c.callPred("(fsutil.Stream).RecvMsg")
 	x := c.explorer(loop)
 	x.From = look
@@ -817,8 +817,7 @@ func r03_6(c *Ctx, rule string) {
 			c.R.OK(rule, con, c.pos(call), name+" does not follow a symlink in the final component")
 			continue
 		}
-		key := c.name(call.Parent()) + "/" + name
-		ex, ok := r036Exceptions[key]
+		ex, ok := tabled(c, r036Exceptions, call)
 		if !ok {
 			c.R.Fail(rule, con, c.pos(call), name+" follows a symlink in the final path component and is applied to a destination path in "+c.name(call.Parent())+": a symlink received earlier (or already present) redirects the operation outside the destination")
 			continue
